@@ -4,12 +4,14 @@
 in seeded/<id>/last_regression.json. Nothing else may use /repo meanwhile. Prints one line per change;
 exit 1 if a change is not caught by any of its named checks."""
 import sys, os, json, glob, subprocess, re, fnmatch, time
-pat = sys.argv[1] if len(sys.argv) > 1 else "*"
+VERIF = os.path.dirname(os.path.dirname(os.path.abspath(__file__)))
+REPO = os.environ.get("VERIF_REPO", "/repo")
+pats = sys.argv[1:] or ["*"]
 seed = os.environ.get("VERIF_SEED", "1")
 bad = 0
-for d in sorted(glob.glob("/verif/seeded/*")):
+for d in sorted(glob.glob(VERIF + "/seeded/*")):
     name = os.path.basename(d)
-    if not fnmatch.fnmatch(name, pat) or not os.path.exists(d + "/patch.diff"):
+    if not any(fnmatch.fnmatch(name, p) for p in pats) or not os.path.exists(d + "/patch.diff"):
         continue
     meta = json.load(open(d + "/meta.json"))
     props = []
@@ -20,9 +22,9 @@ for d in sorted(glob.glob("/verif/seeded/*")):
             props.append(m.group(1))
         if m and m.group(2) == "thorough":
             force = True
-    if subprocess.run(["git", "-C", "/repo", "diff", "--quiet"]).returncode != 0:
-        print("/repo not clean"); sys.exit(2)
-    if subprocess.run(["git", "-C", "/repo", "apply", d + "/patch.diff"]).returncode != 0:
+    if subprocess.run(["git", "-C", REPO, "diff", "--quiet"]).returncode != 0:
+        print(REPO + " not clean"); sys.exit(2)
+    if subprocess.run(["git", "-C", REPO, "apply", d + "/patch.diff"]).returncode != 0:
         print(name, "PATCH DOES NOT APPLY"); bad += 1; continue
     res = {}
     try:
@@ -31,13 +33,13 @@ for d in sorted(glob.glob("/verif/seeded/*")):
             if force:
                 env["VERIF_FORCE_SANITIZERS"] = "1"
             t0 = time.time()
-            r = subprocess.run(["./check", p, "quick"], cwd="/verif", env=env, stdout=subprocess.PIPE, stderr=subprocess.DEVNULL, text=True)
+            r = subprocess.run(["./check", p, "quick"], cwd=VERIF, env=env, stdout=subprocess.PIPE, stderr=subprocess.DEVNULL, text=True)
             sigs = [l.strip()[len("signature: "):] for l in r.stdout.splitlines() if l.strip().startswith("signature:")]
             res[p] = dict(exit=r.returncode, signatures=sigs[:8], seconds=round(time.time() - t0, 1))
     finally:
-        subprocess.run(["git", "-C", "/repo", "checkout", "--", "."])
+        subprocess.run(["git", "-C", REPO, "checkout", "--", "."])
     caught = [p for p, v in res.items() if v["exit"] == 1 and v["signatures"]]
-    json.dump(dict(seed=int(seed), verif_commit=subprocess.run(["git", "-C", "/verif", "rev-parse", "--short", "HEAD"], stdout=subprocess.PIPE, text=True).stdout.strip(), results=res, caught=bool(caught)), open(d + "/last_regression.json", "w"), indent=1)
+    json.dump(dict(seed=int(seed), verif_commit=subprocess.run(["git", "-C", VERIF, "rev-parse", "--short", "HEAD"], stdout=subprocess.PIPE, text=True).stdout.strip(), results=res, caught=bool(caught)), open(d + "/last_regression.json", "w"), indent=1)
     print(name, "CAUGHT" if caught else "MISSED", "; ".join("%s rc=%d %s" % (p, v["exit"], " | ".join(v["signatures"][:3])) for p, v in res.items()), flush=True)
     if not caught:
         bad += 1
